@@ -144,7 +144,18 @@ class Interp:
                             for i in range(dd["arr"]):
                                 arr[i] = (ord(s[i]) if ord(s[i]) < 128 else ord(s[i]) - 256) if i < len(s) else 0
                         elif i0.k == "InitListExpr":
-                            vals = [self.expr(x, env) for x in i0.kids]
+                            def build(il):
+                                out = []
+                                for x in il.kids:
+                                    x0 = x.strip(casts=True)
+                                    if x0.k == "InitListExpr":
+                                        out.append(build(x0))
+                                    elif x0.k == "StringLiteral":
+                                        out.append([ord(c) for c in x0.d.get("s", "")] + [0])
+                                    else:
+                                        out.append(self.expr(x, env))
+                                return out
+                            vals = build(i0)
                             for i in range(dd["arr"]):
                                 arr[i] = vals[i] if i < len(vals) else 0
                         else:
